@@ -824,19 +824,23 @@ def run(ctx):
     # (b) exhaustive small scopes (smallest first; no enlarging once something failed)
     ex = list(exhaustive_cases(facts, 2, ['S', 'B:rr', 'B:rnr'], (0, 1)))
     evaluate(ctx, ex, res, 'exhaustive_2_sends')
-    deep = ctx.deep and not unlisted_failure(ctx, res)
-    if deep:
+    # depth: quick < drift (a modelled function changed: explore more, still within the quick
+    # budget) < thorough
+    def depth():
+        if unlisted_failure(ctx, res):
+            return 0
+        return 2 if ctx.tier == 'thorough' else 1 if ctx.deep else 0
+    if depth() >= 1:
         ex = list(exhaustive_cases(facts, 2, ['S', 'B:rr', 'B:rnr', 'B:r', 'B:nn'], (2,)))
         evaluate(ctx, ex, res, 'exhaustive_2_sends_more_kinds')
-    if deep and not unlisted_failure(ctx, res):
+    if depth() >= 2:
         ex = list(exhaustive_cases(facts, 3, ['S', 'B:rr', 'B:nrr'], (0, 1), thin=3))
         evaluate(ctx, ex, res, 'exhaustive_3_sends_every_3rd')
     # (c) seeded structured generator + hostile stream
-    deep = ctx.deep and not unlisted_failure(ctx, res)
-    ngen = 100000 if deep else 3000
+    ngen = (3000, 40000, 300000)[depth()]
     gen = [c for c in (random_case(rng, facts) for _ in range(ngen)) if usable(c)]
     evaluate(ctx, gen, res, 'generated')
-    nh = 30000 if deep else 1500
+    nh = (1500, 10000, 100000)[depth()]
     hostile = [c for c in (random_case(rng, facts, hostile=True) for _ in range(nh)) if usable(c)]
     evaluate(ctx, hostile, res, 'hostile')
     for c in gen[:2] + hostile[:1]:
